@@ -70,7 +70,12 @@ type KindInfo struct {
 	FxCore   bool   `json:"fxcore"`
 	HasGen   bool   `json:"has_gen"` // the harness can build valid/invalid payloads and observe the effect
 	Store    bool   `json:"store"`   // raw store update (old-value classes)
+	Reset    bool   `json:"reset"`   // has a delete/reset form that is driven too (payload class "reset")
 }
+
+// kinds with a delete / reset form: gov custom params removal (zero-value params), erc20 alias removal (alias already
+// registered for the denom), gov switch params entry removal, raw store overwrite of an existing value
+var resettable = map[string]bool{urlGCustom: true, urlEAlias: true, urlGSwitch: true, urlGStore: true}
 
 // generators for routable fx-core types (by type url)
 var generated = map[string]bool{
@@ -110,7 +115,7 @@ func Discover(w *world.W) []KindInfo {
 		}
 		routable := w.App.MsgServiceRouter().HandlerByTypeURL(u) != nil
 		fx := strings.HasPrefix(u, "/fx.")
-		ki := KindInfo{Kind: u, URL: u, Routable: routable, FxCore: fx, HasGen: generated[u] || !routable, Store: u == urlGStore}
+		ki := KindInfo{Kind: u, URL: u, Routable: routable, FxCore: fx, HasGen: generated[u] || !routable, Store: u == urlGStore, Reset: routable && resettable[u]}
 		// crosschain types carry chain_name and are routed to one keeper per chain module
 		msg, err := w.App.InterfaceRegistry().Resolve(u)
 		if err == nil && reflect.ValueOf(msg).Elem().FieldByName("ChainName").IsValid() {
@@ -184,8 +189,26 @@ func New(t *testing.T, c Consts) *Adapter {
 		must(w.Handle(ctx, &erc20types.MsgRegisterCoin{Authority: world.GovAddr(),
 			Metadata: fxtypes.GetCrossChainMetadataManyToOne(fmt.Sprintf("Verif Toggle %d", i), fmt.Sprintf("VERIFTOG%d", i), 18)}))
 	}
+	aliases := []string{"verifali0"}
+	for i := 1; i <= a.K; i++ {
+		aliases = append(aliases, resetAlias(i))
+	}
 	must(w.Handle(ctx, &erc20types.MsgRegisterCoin{Authority: world.GovAddr(),
-		Metadata: fxtypes.GetCrossChainMetadataManyToOne("Verif Alias", "VERIFALI", 18, "verifali0")}))
+		Metadata: fxtypes.GetCrossChainMetadataManyToOne("Verif Alias", "VERIFALI", 18, aliases...)}))
+	// reset targets: stored custom params, disabled-precompile entries, existing raw store values
+	hour := time.Hour
+	var pre []string
+	var stores []fxgovtypes.UpdateStore
+	for i := 1; i <= a.K; i++ {
+		must(w.Handle(ctx, &fxgovtypes.MsgUpdateCustomParams{Authority: world.GovAddr(), MsgUrl: resetURL(i),
+			CustomParams: fxgovtypes.CustomParams{DepositRatio: "0.000000000000000000", VotingPeriod: &hour, Quorum: "0.200000000000000000"}}))
+		pre = append(pre, resetPrecompile(i))
+		for j := 1; j <= 2; j++ {
+			stores = append(stores, fxgovtypes.UpdateStore{Space: storeSpace, Key: hex.EncodeToString(resetStoreKey(i, j)), OldValue: "", Value: "01"})
+		}
+	}
+	must(w.Handle(ctx, &fxgovtypes.MsgUpdateSwitchParams{Authority: world.GovAddr(), Params: fxgovtypes.SwitchParams{DisablePrecompiles: pre}}))
+	must(w.Handle(ctx, &fxgovtypes.MsgUpdateStore{Authority: world.GovAddr(), UpdateStores: stores}))
 	erc20Module := common.BytesToAddress(authtypes.NewModuleAddress(erc20types.ModuleName))
 	for i := 1; i <= a.K; i++ {
 		addr, err := w.App.Erc20Keeper.DeployUpgradableToken(ctx, erc20Module, fmt.Sprintf("Verif Token %d", i), fmt.Sprintf("VTK%d", i), 18)
@@ -218,9 +241,34 @@ func (a *Adapter) authority(class string) string {
 		s, err := bech32.ConvertAndEncode("cosmos", a.gov)
 		must(err)
 		return s
+	case "gov-suffix-21": // one leading byte + the gov bytes: a different (21-byte) account, valid bech32 with the chain prefix
+		return chainBech32(append([]byte{0x01}, a.gov...))
+	case "gov-suffix-32": // 12 leading bytes + the gov bytes
+		return chainBech32(append(bytesOf(0x02, 12), a.gov...))
+	case "gov-prefix-32": // the gov bytes + 12 trailing bytes
+		return chainBech32(append(append([]byte{}, a.gov...), bytesOf(0x03, 12)...))
 	}
 	panic("authority class " + class)
 }
+
+func chainBech32(bz []byte) string {
+	s, err := bech32.ConvertAndEncode(sdk.GetConfig().GetBech32AccountAddrPrefix(), bz)
+	must(err)
+	return s
+}
+
+func bytesOf(b byte, n int) []byte {
+	out := make([]byte, n)
+	for i := range out {
+		out[i] = b
+	}
+	return out
+}
+
+func resetAlias(i int) string       { return fmt.Sprintf("verifrm%d", i) }
+func resetURL(i int) string         { return fmt.Sprintf("/verif.c16.Reset%d", i) }
+func resetPrecompile(i int) string  { return strings.ToLower(world.DetExt(fmt.Sprintf("c16/precompile/%d", i))) }
+func resetStoreKey(i, j int) []byte { return []byte(fmt.Sprintf("verif/c16/rs/%d/%d", i, j)) }
 
 func oracleAddr(chain string, i int) string {
 	return world.DetKey(fmt.Sprintf("c16/%s/oracle/%d", chain, i)).AccAddress().String()
@@ -284,7 +332,13 @@ func (a *Adapter) count(ctx sdk.Context, k KindInfo) any {
 		if !found || len(md.DenomUnits) == 0 {
 			return "?metadata-missing"
 		}
-		return int64(len(md.DenomUnits[0].Aliases)) - 1
+		n := int64(0)
+		for _, al := range md.DenomUnits[0].Aliases {
+			if strings.HasPrefix(al, "verifalias") {
+				n++
+			}
+		}
+		return n
 	case urlEvmCall:
 		var out struct{ Value *big.Int }
 		if err := w.App.EvmKeeper.QueryContract(ctx, a.evmModule, a.callTarget, contract.GetFIP20().ABI, "allowance", &out, a.evmModule, a.spender); err != nil {
@@ -316,6 +370,64 @@ func (a *Adapter) count(ctx sdk.Context, k KindInfo) any {
 	return int64(0) // kinds without a handler / reject-only kinds have no effect to observe
 }
 
+// cleared: how many reset targets of kind k have been consumed in ctx (0 for kinds without a reset form)
+func (a *Adapter) cleared(ctx sdk.Context, k KindInfo) any {
+	w := a.W
+	if !k.Reset {
+		return int64(0)
+	}
+	n := int64(0)
+	switch k.URL {
+	case urlGCustom:
+		for i := 1; i <= a.K; i++ {
+			if _, err := w.App.GovKeeper.CustomerParams.Get(ctx, resetURL(i)); err != nil {
+				n++
+			}
+		}
+	case urlEAlias:
+		md, found := w.App.BankKeeper.GetDenomMetaData(ctx, "verifali")
+		if !found || len(md.DenomUnits) == 0 {
+			return "?metadata-missing"
+		}
+		have := map[string]bool{}
+		for _, al := range md.DenomUnits[0].Aliases {
+			have[al] = true
+		}
+		for i := 1; i <= a.K; i++ {
+			_, indexed := w.App.Erc20Keeper.GetAliasDenom(ctx, resetAlias(i))
+			if have[resetAlias(i)] != indexed {
+				return "?alias-index-disagrees"
+			}
+			if !indexed {
+				n++
+			}
+		}
+	case urlGSwitch:
+		have := map[string]bool{}
+		for _, p := range w.App.GovKeeper.GetSwitchParams(ctx).DisablePrecompiles {
+			have[p] = true
+		}
+		for i := 1; i <= a.K; i++ {
+			if !have[resetPrecompile(i)] {
+				n++
+			}
+		}
+	case urlGStore:
+		st := ctx.KVStore(w.App.GetKey(storeSpace))
+		for i := 1; i <= a.K; i++ {
+			v1, v2 := hex.EncodeToString(st.Get(resetStoreKey(i, 1))), hex.EncodeToString(st.Get(resetStoreKey(i, 2)))
+			switch {
+			case v1 == "01" && v2 == "01":
+			case v1 == "00" && v2 == "00":
+				n++
+			default:
+				return fmt.Sprintf("?%s/%s", v1, v2)
+			}
+		}
+	}
+	return n
+}
+
 func hexByte(n int64) string {
 	if n == 0 {
 		return ""
@@ -327,6 +439,36 @@ func hexByte(n int64) string {
 func (a *Adapter) build(ctx sdk.Context, k KindInfo, auth, pay, old string, n int64) sdk.Msg {
 	w := a.W
 	valid := pay == "valid"
+	if pay == "reset" { // n = number of reset targets already consumed; the form acts on target n+1
+		i := int(n) + 1
+		switch k.URL {
+		case urlGCustom:
+			return &fxgovtypes.MsgUpdateCustomParams{Authority: auth, MsgUrl: resetURL(i), CustomParams: fxgovtypes.CustomParams{}}
+		case urlEAlias:
+			return &erc20types.MsgUpdateDenomAlias{Authority: auth, Denom: "verifali", Alias: resetAlias(i)}
+		case urlGSwitch:
+			p := w.App.GovKeeper.GetSwitchParams(ctx)
+			var keep []string
+			for _, x := range p.DisablePrecompiles {
+				if x != resetPrecompile(i) {
+					keep = append(keep, x)
+				}
+			}
+			p.DisablePrecompiles = keep
+			return &fxgovtypes.MsgUpdateSwitchParams{Authority: auth, Params: p}
+		case urlGStore:
+			e1 := fxgovtypes.UpdateStore{Space: storeSpace, Key: hex.EncodeToString(resetStoreKey(i, 1)), OldValue: "01", Value: "00"}
+			e2 := fxgovtypes.UpdateStore{Space: storeSpace, Key: hex.EncodeToString(resetStoreKey(i, 2)), OldValue: "01", Value: "00"}
+			switch old {
+			case "mismatch-first":
+				e1.OldValue = "ff"
+			case "mismatch-second":
+				e2.OldValue = "ff"
+			}
+			return &fxgovtypes.MsgUpdateStore{Authority: auth, UpdateStores: []fxgovtypes.UpdateStore{e1, e2}}
+		}
+		panic("no reset form for " + k.URL)
+	}
 	switch k.URL {
 	case urlXParams:
 		var p crosschaintypes.Params
@@ -407,7 +549,9 @@ func (a *Adapter) build(ctx sdk.Context, k KindInfo, auth, pay, old string, n in
 		if !valid {
 			list = append(list, list[0])
 		}
-		return &fxgovtypes.MsgUpdateSwitchParams{Authority: auth, Params: fxgovtypes.SwitchParams{DisableMsgTypes: list}}
+		p := w.App.GovKeeper.GetSwitchParams(ctx) // the disabled-precompile entries (reset targets) are kept
+		p.DisableMsgTypes = list
+		return &fxgovtypes.MsgUpdateSwitchParams{Authority: auth, Params: p}
 	case urlGCustom:
 		per := time.Duration(n+1) * time.Hour
 		q := "0.200000000000000000"
@@ -438,6 +582,9 @@ func (a *Adapter) Apply(ctx sdk.Context, op graph.Op) (sdk.Context, string) {
 	}
 	auth, pay, old := op.Str("auth"), op.Str("pay"), op.Str("old")
 	n, _ := a.count(ctx, k).(int64)
+	if pay == "reset" {
+		n, _ = a.cleared(ctx, k).(int64)
+	}
 	msg := a.build(ctx, k, a.authority(auth), pay, old, n)
 	before := a.W.DumpHash(ctx)
 	err := a.W.Handle(ctx, msg)
@@ -460,11 +607,12 @@ func (a *Adapter) Apply(ctx sdk.Context, op graph.Op) (sdk.Context, string) {
 }
 
 func (a *Adapter) Project(ctx sdk.Context) any {
-	applied := map[string]any{}
+	applied, cleared := map[string]any{}, map[string]any{}
 	for _, name := range a.Order {
 		applied[name] = a.count(ctx, a.Kinds[name])
+		cleared[name] = a.cleared(ctx, a.Kinds[name])
 	}
-	return map[string]any{"applied": applied, "dirty": ctx.KVStore(a.W.App.GetKey(dirtySpace)).Has([]byte(dirtyMarker))}
+	return map[string]any{"applied": applied, "cleared": cleared, "dirty": ctx.KVStore(a.W.App.GetKey(dirtySpace)).Has([]byte(dirtyMarker))}
 }
 
 var _ = banktypes.Metadata{}
